@@ -13,10 +13,13 @@ import (
 	"sync"
 
 	"github.com/aldas/go-modbus-client/server"
+	"github.com/aldas/go-modbus-client/verifshim/vsched"
 	"verif/ev"
+	"verif/explore"
 	"verif/lib"
 	"verif/serverx"
 	"verif/spec"
+	"verif/srvx"
 )
 
 const prop = "C16"
@@ -368,6 +371,7 @@ func run(tier string, shard, nsh int, res *ev.Result) {
 		tot.replies += lc.replies
 		mu.Unlock()
 	})
+	processLevel(tier, res)
 	res.Add("evaluations", tot.evals)
 	res.Add("replies_checked", tot.replies)
 	res.DistinctAdd("nontrivial", tot.replies)
@@ -383,6 +387,23 @@ func run(tier string, shard, nsh int, res *ev.Result) {
 }
 
 func replay(check string, raw json.RawMessage, res *ev.Result) {
+	if check == "process" {
+		var c Case2
+		json.Unmarshal(raw, &c)
+		explore.Replay(func(x *explore.Ctx) {
+			r := srvx.Run(c.Scenario, vsched.Config{Choose: x.Choose, Budget: c.Budget, TimeFirst: true, Trace: true, MaxSteps: 20000})
+			for _, st := range r.Out.Trace {
+				fmt.Printf("  thread %d: %s\n", st.Thread, st.Label)
+			}
+			if r.Out.Crash != "" {
+				fmt.Println(r.Out.Crash)
+			}
+			for _, v := range r.V {
+				res.Violate(ev.Violation{Check: check, Kind: v.Kind, Attrs: v.Attrs, Msg: v.Msg, Case: c})
+			}
+		}, c.Choices)
+		return
+	}
 	var c Case
 	json.Unmarshal(raw, &c)
 	f, _ := hex.DecodeString(c.Frame)
